@@ -88,7 +88,7 @@ static std::string run_case(Case &c, bool *short_rs = nullptr) {
   jwt_builder_enable_iat(b, c.iat); jwt_builder_time_offset(b, JWT_CLAIM_NBF, c.nbf_off); jwt_builder_time_offset(b, JWT_CLAIM_EXP, c.exp_off);
   std::string bad;
   auto put = [&](bool header, J &obj) {
-    if (c.mode == 0) { std::string txt = obj.dump(JSON_COMPACT); jwt_value_t v = val_json(nullptr, txt.c_str(), 1); if (header ? jwt_builder_header_set(b, &v) : jwt_builder_claim_set(b, &v)) bad = "whole-object-set-refused"; return; }
+    if ((c.mode & 1) == 0) { std::string txt = obj.dump(JSON_COMPACT); jwt_value_t v = val_json(nullptr, txt.c_str(), 1); if (header ? jwt_builder_header_set(b, &v) : jwt_builder_claim_set(b, &v)) bad = "whole-object-set-refused"; return; }
     const char *k; json_t *val; json_object_foreach(obj.p, k, val) {
       jwt_value_t v; std::string txt;
       if (json_is_integer(val)) v = val_int(k, (long)json_integer_value(val), 1); else if (json_is_string(val)) v = val_str(k, json_string_value(val), 1); else if (json_is_boolean(val)) v = val_bool(k, json_is_true(val), 1);
@@ -125,11 +125,14 @@ static std::string run_case(Case &c, bool *short_rs = nullptr) {
   const LKey &pub = lkey(*ka.k, ka.attr, false);
   if (jwt_checker_setkey(ch, ka.attr.empty() ? ka.alg : JWT_ALG_NONE, pub.item)) { jwt_checker_free(ch); return "checker-setkey-refused"; }
   jwt_checker_time_leeway(ch, JWT_CLAIM_NBF, c.nbf_off > 0 ? c.nbf_off : 0);   // the token is not-before now+offset: allow it
+  if (c.mode & 2) {   // the checker is not fresh: it has just rejected a damaged copy of this token and garbage (no error_clear)
+    std::string dmg = c.token; dmg[dmg.size() / 2] = dmg[dmg.size() / 2] == 'A' ? 'B' : 'A';
+    jwt_checker_verify(ch, dmg.c_str()); jwt_checker_verify(ch, "garbage"); }
   jwt_checker_setcb(ch, read_cb, &rc);
   int ret = jwt_checker_verify(ch, c.token.c_str());
   std::string msg = jwt_checker_error_msg(ch) ? jwt_checker_error_msg(ch) : "";
   jwt_checker_free(ch);
-  if (ret) return "checker-rejects-generated-token:" + msg.substr(0, 50);
+  if (ret) return std::string("checker-rejects-generated-token") + ((c.mode & 2) ? "(reused-checker)" : "") + ":" + msg.substr(0, 50);
   if (!rc.ran) return "callback-not-run";
   if (!rc.ok) return rc.why;
   return "";
@@ -184,7 +187,7 @@ int main(int argc, char **argv) {
   bool ok = rc::check("C05: generated tokens verify and deliver the same content", [&]() {
     Case c; c.cell = *UNI(0, (int)CELLS.size()); const KA &ka = CELLS[c.cell];
     c.sprov = *UNI(0, 2); c.vprov = *UNI(0, 2); if (gn_unsupported(ka)) c.sprov = c.vprov = 0;
-    c.mode = *UNI(0, 2); c.now = *rc::gen::element<long long>(1700000000LL, 0LL, 1LL, 4102444800LL, 1LL << 33); c.iat = *UNI(0, 2); c.nbf_off = *rc::gen::element<long>(0L, 0L, -5L, 30L, 3600L); c.exp_off = *rc::gen::element<long>(0L, 60L, 3600L, -1L, 1L << 31);
+    c.mode = *UNI(0, 4); c.now = *rc::gen::element<long long>(1700000000LL, 0LL, 1LL, 4102444800LL, 1LL << 33); c.iat = *UNI(0, 2); c.nbf_off = *rc::gen::element<long>(0L, 0L, -5L, 30L, 3600L); c.exp_off = *rc::gen::element<long>(0L, 60L, 3600L, -1L, 1L << 31);
     TreeStats ts; J h = gen_json(0, ts, true); int hd = ts.depth; J cl = gen_json(0, ts, true);
     json_object_del(h.p, "alg");   // the library forces alg; a user alg header is C10's business
     if (c.iat) json_object_del(cl.p, "iat"); if (c.nbf_off > 0) json_object_del(cl.p, "nbf"); if (c.exp_off > 0) json_object_del(cl.p, "exp");
